@@ -402,6 +402,13 @@ package zygo
 // callers in the swept code get an obligation): a registered type need not have a Go type
 //@ func reflect.SliceOf
 //@ C01 requires has-element-type: t != nil
+// every form leaves exactly one value, also the empty ones: (begin) and (newScope) with nothing
+// in them are nil. A form that leaves nothing makes the next pop (or the next call's argument
+// count) take somebody else's operand, and the data stack then hands out a nil element
+//@ func (*Generator).GenerateCallBySymbol
+//@ C01,C02,C04 assert an-empty-begin-is-not-compiled-to-nothing @before call GenerateBegin[0]: len(arg1) > 0
+//@ func (*Generator).GenerateNewScope
+//@ C01,C02,C04 ensures an-empty-scope-block-has-a-value: r0 == nil && len(expressions) == 0 ==> len(gen.instructions) == old(len(gen.instructions)) + 1 && typeis(gen.instructions[len(gen.instructions)-1], PushInstr)
 // mdef: every target slot is filled with a symbol before the value is compiled; the bind
 // instruction hands each one to BindSymbol, which dereferences it
 //@ func (*Generator).GenerateMultiDef
